@@ -18,6 +18,7 @@ func init() {
 		Assumptions: []string{"Bus.Send delivers synchronously to listeners registered before it copied the registry"},
 		Run:         runC03,
 		Controls: []Control{
+			{Name: "pullid-drops-its-options", File: "pkg/resource/collection.go", Old: "\tchanges := c.Pull(ctx, opts...)\n", New: "\tchanges := c.Pull(ctx)\n", Expect: "R03.14"},
 			{Name: "send-results-read-the-other-way-round", File: "internal/minibus/bus.go", Old: "\t\tok, active := l.send(ctx, event)\n", New: "\t\tactive, ok := l.send(ctx, event)\n", Expect: "R03.12"},
 			{Name: "unlock-before-listen", File: "pkg/resource/value.go", Old: "\t\tr.mu.RLock()\n\t\tdefer r.mu.RUnlock()\n\t\tvalue = r.value\n\t\tchangeTime = r.changeTime\n", New: "\t\tr.mu.RLock()\n\t\tvalue = r.value\n\t\tchangeTime = r.changeTime\n\t\tr.mu.RUnlock()\n", Expect: "R03.1"},
 			{Name: "subscribe-in-goroutine", File: "pkg/resource/value.go", Old: "\ton, currentValue, changeTime := r.onUpdate(ctx, readConfig)\n\ttypedEvents := make(chan *ValueChange)\n\tgo func() {\n\t\tdefer close(typedEvents)\n", New: "\ttypedEvents := make(chan *ValueChange)\n\tgo func() {\n\t\tdefer close(typedEvents)\n\t\ton, currentValue, changeTime := r.onUpdate(ctx, readConfig)\n", Expect: "R03.2"},
@@ -37,6 +38,11 @@ const busSend = "(*" + an.ModulePath + "/internal/minibus.Bus).Send"
 const gauName = an.ModulePath + "/pkg/resource.GetAndUpdate"
 
 func runC03(c *an.Ctx) {
+	r0113(c, "R03.14") // a subscription entry point passes its options on (shared with R01.13)
+	c.Min("R03.14", 40)
+	r046(c, "R03.15")
+	r165held(c, "R03.15") // the reference of the equivalence test follows what was delivered (shared with R16.5)
+	c.Min("R03.15", 2)
 	r109(c, "R03.12") // what Bus.Send makes of listener.send's two results (shared with R10.9)
 	c.Min("R03.12", 3)
 	r031(c)
